@@ -33,7 +33,7 @@ def run_batch(cls, mname, x0, k, bound, nsamp, rng, backend, tmpdir):
         kw["tracemanager"] = TraceManager(TraceType=InMemoryTrace) if backend == "memory" else TraceManager(TraceType=YAMLTrace, trace_kwargs=dict(location=tmpdir, log_pitch=64))
         b = BatchedTraj(model, TrajGenConst([x0], [k], 0, seed=rng.randrange(2 ** 31)), C, **kw)
         r = b.compute()
-    r._requested = kw["samples"]
+    r._requested = kw["samples"]; r._trace_every = kw["trace_every"]
     return r
 
 
@@ -50,6 +50,12 @@ def finals(results, backend, tmpdir):
             nh = sum(1 for e in evs if e.get("event") == "hop")
         out.append((float(t.weight), int(last["active"]), bool(last["position"][0] < 0.0), nh))
     return out
+
+
+def switches(t):
+    """surface switches visible in the snapshots of one trace (every step logged)"""
+    act = [int(s_["active"]) for s_ in t]
+    return sum(1 for a, b in zip(act, act[1:]) if a != b)
 
 
 def run(tier, seed):
@@ -71,6 +77,11 @@ def run(tier, seed):
         r = run_batch(cls, mname, x0, k, bound, nsamp, rng, backend, d)
         fin = finals(r, backend, d)
         info = dict(cls=cls, model=mname, k=k, samples=nsamp, backend=backend, traces=fin)
+        if r._trace_every == 1:
+            sw = [switches(t) for t in r.traces]
+            res.count("hop-counts-cross-checked-with-snapshots", len(sw))
+            if sw != [f[3] for f in fin]:
+                bad.append(dict(failed="the hop counts behind the printed histogram agree with the traces: hops recorded per trace %r, surface switches in the snapshots of the same traces %r" % ([f[3] for f in fin], sw), case=info))
         out = np.array(r.outcome()); out_attr = np.array(r.outcomes)
         cnt = np.array(r.counts())
         hist = []
@@ -118,12 +129,18 @@ def run(tier, seed):
             refh = [sum(w for w, _, _, h in fin if h == i) / W for i in range(max(h for _, _, _, h in fin) + 1)]
             if len(refh) != len(hist) or max(abs(a - b) for a, b in zip(refh, hist)) > 1e-11:
                 bad.append(dict(failed="printed hop-count histogram equals weight fraction per hop count", case=info, printed=hist, reference=refh))
-        # permutation invariance
-        perm = list(r.traces); rng.shuffle(perm)
-        keep = r.traces; r.traces = perm
-        out2 = np.array(r.outcome()); r.traces = keep
-        if np.max(np.abs(out2 - out)) > 1e-13:
-            bad.append(dict(failed="table unchanged by reordering trajectories", case=info))
+        # permutation invariance: a random shuffle, a reversal, and a swap of two traces that differ in weight and final state (new list and in place)
+        perms = [rng.sample(list(r.traces), len(r.traces)), list(reversed(r.traces))]
+        diff = [(i, j) for i in range(len(fin)) for j in range(i) if fin[i][0] != fin[j][0] and fin[i][1:3] != fin[j][1:3]]
+        if diff:
+            i, j = diff[0]; pm = list(r.traces); pm[i], pm[j] = pm[j], pm[i]; perms.append(pm); res.count("adversarial-swap")
+        keep = r.traces; orig = list(keep)
+        for pm in perms:
+            r.traces = pm
+            out2 = np.array(r.outcome()); cnt2 = np.array(r.counts()); r.traces = keep
+            keep[:] = pm; out3 = np.array(r.outcome()); keep[:] = orig
+            if np.max(np.abs(out2 - out)) > 1e-13 or np.max(np.abs(out3 - out)) > 1e-13 or not np.array_equal(cnt2, cnt):
+                bad.append(dict(failed="table unchanged by reordering trajectories", case=info)); break
         if len(fin) != getattr(r, "_requested", len(fin)): res.count("generator-skipped-samples")
         uneq = len(set(round(w, 14) for w, _, _, _ in fin)) > 1
         res.count("class/" + cls); res.count("backend/" + backend); res.count("weights/" + ("unequal" if uneq else "equal")); res.count("ntraces", len(fin))
@@ -131,6 +148,30 @@ def run(tier, seed):
         cases.append(tup(nat(nst), lst([tup(fl(w), nat(a), bl(l), nat(h)) for w, a, l, h in fin]), flss(out.tolist()), flss(cnt.tolist()), fls(hist)))
         meta.append(info)
         shutil.rmtree(d, ignore_errors=True)
+    # ---- a batch stopped early and continued on the same traces: the table follows the traces as they are now
+    import mudslide
+    from mudslide.models import scattering_models as MM
+    from mudslide.batch import BatchedTraj, TrajGenConst
+    from mudslide.tracer import TraceManager
+    for it in range(3 if tier == "quick" else 25):
+        mname, nst, x0, (klo, khi), bound = SETUPS[it % len(SETUPS)]
+        cls = [mudslide.TrajectorySH, mudslide.TrajectoryCum, mudslide.Ehrenfest][it % 3]
+        k = rng.uniform(klo, khi); ns = rng.randint(2, 5)
+        b = BatchedTraj(MM[mname](), TrajGenConst([x0], [k], 0, seed=rng.randrange(2 ** 31)), cls, samples=ns, dt=10.0, bounds=[-bound, bound], max_steps=rng.randint(3, 30), tracemanager=TraceManager())
+        r = b.compute()
+        early = np.array(r.outcome())
+        for t in r.traces:
+            cls.restart(MM[mname](), t, bounds=[-bound, bound], max_steps=3000, seed_sequence=rng.randrange(2 ** 31)).simulate()
+        fin = finals(r, "memory", None)
+        W = sum(w for w, _, _, _ in fin); ref = np.zeros((nst, 2)); refc = np.zeros((nst, 2))
+        for w, a, left, _ in fin:
+            ref[a, 0 if left else 1] += w / W; refc[a, 0 if left else 1] += 1.0
+        late = np.array(r.outcome())
+        res.count("continued-batches"); res.count("continued-batches/table-changed" if not np.allclose(early, late) else "continued-batches/table-same")
+        res.case(("continued", mname, cls.__name__, k, ns), True)
+        if np.max(np.abs(late - ref)) > 1e-12 or not np.array_equal(np.array(r.counts()), refc):
+            bad.append(dict(failed="table agrees with the final snapshots and weights of the individual traces (batch stopped early, every trace continued by restart(): table %r, traces now say %r)" % (late.tolist(), ref.tolist()),
+                            case=dict(model=mname, cls=cls.__name__, k=k, samples=ns)))
     shutil.rmtree(tmproot, ignore_errors=True)
     # ---- command-line driver, averaged rows
     import mudslide.__main__ as mm
@@ -171,5 +212,5 @@ def run(tier, seed):
                       dict(kind="correspondence", correspondence="Run/R17.chk17: Model/Outcome.v vs TraceManager.outcome/counts/summarize", failing_inputs=corr, no_failing_input_found=True))
     return finish(res, thm,
                   rule="real batches (1-7 samples) of FSSH / cumulative / Ehrenfest / A-FSSH / even-sampling (unequal weights) on simple, dual, extended, super; memory and YAML back-ends; "
-                       "outcome(), outcomes, counts(), summarize() text, shuffled trace lists, CLI averaged rows; final (weight, active, side, hops) read from each trace; non-trivial = distinct batch",
+                       "outcome(), outcomes, counts(), summarize() text, shuffled / reversed / adversarially swapped trace lists (new list and in place), batches stopped early and continued on the same traces, hop counts cross-checked with the surface switches in the snapshots, CLI averaged rows; final (weight, active, side, hops) read from each trace; non-trivial = distinct batch",
                   assumptions=["the number of hops of a YAML trace is read from its event file"])
